@@ -22,7 +22,7 @@ class DecSession:
     def __init__(self, hdr):
         from jesse.exchanges import Sandbox
         self.hdr = hdr
-        self.sess = ObjSession(typ="spot", fee=hdr["fee_bp"] / 10000, balance=float(hdr["start"]),
+        self.sess = ObjSession(typ="spot", fee=hdr["fee_hbp"] / 20000, balance=float(hdr["start"]),
                                symbols=(SYM,), price=hdr["p0"] / 100, cancel_on_close=False)
         self.ex = self.sess.ex
         self.exchange = self.sess.exchange
@@ -33,7 +33,8 @@ class DecSession:
     def snapshot(self):
         e = self.exchange
         return {"quote": sc(e.assets[e.settlement_currency], MU), "base": sc(e.assets["BTC"], BU),
-                "pos": sc(self.pos.qty, BU), "stopSum": sc(e.stop_orders_sum.get(SYM, 0), BU),
+                "pos": sc(self.pos.qty, BU), "posx": float(self.pos.qty).hex(), "basex": float(e.assets["BTC"]).hex(),
+                "stopSum": sc(e.stop_orders_sum.get(SYM, 0), BU),
                 "limitSum": sc(e.limit_orders_sum.get(SYM, 0), BU),
                 "ord": [{"side": o.side, "typ": TYP.get(o.type, o.type), "q": sc(abs(o.qty), BU), "p": sc(o.price, PU),
                          "ro": bool(o.reduce_only), "st": ST.get(str(o.status).upper(), str(o.status))} for o in self.orders]}
@@ -62,7 +63,8 @@ class DecSession:
             if k == "submit":
                 q = self.qty_of(op)
                 p = self.pos.current_price if op["typ"] == "MKT" else float(op["plit"])
-                ev.update(side=op["side"], typ=op["typ"], ro=op["ro"], q=sc(abs(q), BU), p=sc(p, PU), acc=True)
+                ev.update(side=op["side"], typ=op["typ"], ro=op["ro"], q=sc(abs(q), BU), p=sc(p, PU), acc=True,
+                          qx=float(abs(q)).hex())
                 try:
                     f = {"MKT": self.sandbox.market_order, "LMT": self.sandbox.limit_order, "STP": self.sandbox.stop_order}[op["typ"]]
                     self.orders.append(f(SYM, abs(q), p, op["side"], op["ro"]))
@@ -198,9 +200,58 @@ def split_history(arg):
     return {"id": tid, "hdr": hdr, "seed": seed, "init": init, "ev": evs, "ops": done}
 
 
+def accumulate_history(arg):
+    """many small decimal buys at a non-zero fee (position.qty and the base balance are updated by two cooperating
+    sites: they must stay bit-equal), then a sell of exactly position.qty, which must be accepted and leave nothing"""
+    tid, hdr, seed = arg
+    rng = random.Random(seed)
+    s = DecSession(hdr)
+    init = s.snapshot()
+    evs, done = [], []
+
+    def run(op):
+        ev = s.apply(op)
+        done.append(op)
+        evs.append(ev)
+        return not ((ev["k"] == "submit" and not ev["acc"]) or ev["exc"] != "none")
+
+    ok = True
+    for cycle in range(rng.randint(1, 2)):
+        for j in range(rng.randint(8, 22)):
+            if s.exchange.assets["BTC"] > 9.0:
+                break
+            ok = run({"op": "submit", "side": "buy", "typ": "MKT", "ro": False, "qmode": "lit",
+                      "qlit": "%.3f" % (rng.randint(1, 400) / 1000), "plit": "0"})
+            ok = ok and run({"op": "exec", "id": len(s.orders)})
+            if not ok:
+                break
+            if rng.random() < 0.2:
+                run({"op": "price", "plit": "%.2f" % (rng.randint(2000, 30000) / 100)})
+        if not ok:
+            break
+        typ = rng.choice(["MKT", "LMT", "STP"])
+        ok = run({"op": "submit", "side": "sell", "typ": typ, "ro": rng.random() < 0.5, "qmode": "all", "qlit": "0",
+                  "plit": "%.2f" % (rng.randint(2000, 30000) / 100)})
+        ok = ok and run({"op": "exec", "id": len(s.orders)})
+        if not ok:
+            break
+    return {"id": tid, "hdr": hdr, "seed": seed, "init": init, "ev": evs, "ops": done}
+
+
+def accumulate_histories(n, seed, first_id=1):
+    rng = random.Random(seed * 8191 + 3)
+    items = [(first_id + i, {"fee_hbp": [8, 15, 20][i % 3], "start": 5000, "p0": rng.randint(2000, 20000), "no_sell_cancel": True},
+              rng.randrange(10 ** 9)) for i in range(n)]
+    res = run_isolated(accumulate_history, items, procs=min(8, max(1, n // 20)), chunk=100) if n > 20 else [accumulate_history(i) for i in items]
+    for r in res:
+        if isinstance(r, tuple) and r and r[0] == "EXC":
+            raise Machinery("decimal accumulate history child failed: %s" % r[1])
+    return res
+
+
 def split_histories(n, seed, first_id=1):
     rng = random.Random(seed * 31337 + 7)
-    items = [(first_id + i, {"fee_bp": 0, "start": 5000, "p0": rng.randint(2000, 30000), "no_sell_cancel": True},
+    items = [(first_id + i, {"fee_hbp": 0, "start": 5000, "p0": rng.randint(2000, 30000), "no_sell_cancel": True},
               rng.randrange(10 ** 9)) for i in range(n)]
     res = run_isolated(split_history, items, procs=min(8, max(1, n // 20)), chunk=100) if n > 20 else [split_history(i) for i in items]
     for r in res:
@@ -213,7 +264,7 @@ def random_histories(n, seed, first_id=1, procs=12):
     rng = random.Random(seed * 7919 + 13)
     items = []
     for i in range(n):
-        hdr = {"fee_bp": rng.choice([0, 7, 10, 26]), "start": rng.choice([1000, 5000]), "p0": rng.randint(2000, 30000),
+        hdr = {"fee_hbp": rng.choice([0, 8, 15, 20, 14, 52]), "start": rng.choice([1000, 5000]), "p0": rng.randint(2000, 30000),
                "no_sell_cancel": i % 2 == 0}       # half of the histories never cancel a resting sell (input choice only)
         items.append((first_id + i, hdr, rng.randrange(10 ** 9), rng.randint(30, 60)))
     res = run_isolated(one_history, items, procs=min(procs, max(1, n // 10)), chunk=50) if n > 20 else [one_history(i) for i in items]
@@ -273,7 +324,7 @@ def report(ctx, pid, traces, verdicts):
             bad += 1
             ctx.violation("%s spot-decimal %s" % (pid, v[1]),
                           "decimal trace %d (fee %s bp) rejected at event %d: %s; last ops=%s" % (
-                              t["id"], t["hdr"]["fee_bp"], v[0], v[1], t["ops"][max(0, v[0] - 4):v[0]]), payload)
+                              t["id"], t["hdr"]["fee_hbp"] / 2, v[0], v[1], t["ops"][max(0, v[0] - 4):v[0]]), payload)
         for k in (v[2] if len(v) > 2 else []):
             ctx.violation("%s spot %s" % (pid, k), "decimal trace %d: the code deviates exactly as the named quirk %s; last ops=%s"
                           % (t["id"], k, t["ops"][max(0, v[0] - 4):v[0]]), payload)
